@@ -62,7 +62,11 @@ func (c *Client) Produce(args ProduceArgs) (enc.Name, error) {
 	}
 
 	// TODO: sign the data
-	basename := append(args.Name, enc.NewVersionComponent(version))
+	// Never append to the caller's slice in place: with spare capacity, basename, the
+	// segment names and the metadata name below would all share (and overwrite) one array.
+	prefix := args.Name[:len(args.Name):len(args.Name)]
+	basename := append(prefix, enc.NewVersionComponent(version))
+	basename = basename[:len(basename):len(basename)]
 	signer := sec.NewSha256Signer()
 
 	// use a transaction to ensure the entire object is written
@@ -107,7 +111,7 @@ func (c *Client) Produce(args ProduceArgs) (enc.Name, error) {
 	}
 
 	{ // write metadata packet
-		name := append(args.Name,
+		name := append(prefix,
 			enc.NewStringComponent(enc.TypeKeywordNameComponent, "metadata"),
 			enc.NewVersionComponent(version),
 			enc.NewSegmentComponent(0),
